@@ -8,6 +8,7 @@ import ParryModel.C11.Theorems6
 import ParryModel.C11.Theorems7
 import ParryModel.C11.Theorems8
 import ParryModel.C11.Theorems9
+import ParryModel.C11.Theorems10
 /-!
 # C11 property theorems: TriMesh derived data always match the buffers
 
